@@ -22,7 +22,9 @@ SRC = ['(a / x :R (b / y :R (c / z :S a)) :T c :A 1)',
        '(a / x~1 :ARG0~2 (b / y) :mod "s (t) ; #"~3 :ARG1-of (c / z :ARG0 b))',
        '(a / x)', '(a :R (b :R a))',
        '(c / chapter :mod 7 :domain-of (d / dog :location (p / park)) :ARG1-of (m / have-mod-91 :ARG2 (e / e)))',
-       '(a / alpha :op10 k :op2 j :ARG1-of (b / beta) :consist-of-of (g / gamma) :polarity -)']
+       '(a / alpha :op10 k :op2 j :ARG1-of (b / beta) :consist-of-of (g / gamma) :polarity -)',
+       '(a / alpha~1 :ARG1-of~2 (_ / have-mod-91~3 :ARG2 7~4) :mod~5 (b / beta~6) :location (c / c :ARG0-of b))',
+       '(a / x :ARG1-of (m / have-mod-91~e.2 :ARG2~e.3 (b / y)) :quant 1~e.4)']
 
 
 def snap(x):
